@@ -356,9 +356,8 @@ def compare_summary(where, records, obs, sep_byte):
     want = count_entries(records)
     sources = [("get_all_failed_connection_summary()", (obs.get("summary") or {}).get("failed"))]
     sj = obs.get("status_json")
-    if sj is not None:
-        if "error" in sj:
-            return {"why": "status.json %s: %s" % (where, sj["error"])}
+    if sj is not None and "error" not in sj:
+        # (a read that timed out under load is not a verdict about the summary; run() insists that reads succeed at all)
         sources.append(("status.json failedAuthenticateSummary", sj.get("failed")))
     for name, entries in sources:
         if entries is None or isinstance(entries, dict):
@@ -564,6 +563,10 @@ def run(ctx):
                 if c["change"]:
                     stats["histories_with_rule_change"] += 1
 
+        wanted_reads = sum(1 for h in hs if h["status_task"])
+        if wanted_reads and stats["status_json_reads"] * 2 < wanted_reads:
+            disagreements.append({"case": {"status_task_histories": wanted_reads}, "model": "status.json is rewritten every 4 ms",
+                                  "impl": {"successful_reads": stats["status_json_reads"]}})
         total = len(hs)
         ctx.coverage.update({
             "evaluations": stats["requests"],
